@@ -673,3 +673,91 @@ Proof.
     as (d & R & I).
   exists d. split; [exact R|]. apply (inv_exact _ _ d (wf_norm_time t Ht) I).
 Qed.
+
+(** ================================================================
+    Part 6 — the value the Basic -> HAMT decision is taken on
+    ================================================================ *)
+Lemma link_size_le_sum : forall l e, Forall good_entry l -> In e l -> link_size e <= sum_links l.
+Proof.
+  induction l as [|x l IH]; intros e H Hin; [destruct Hin|].
+  inversion H as [|? ? [Hw Ht] Hl]; subst. cbn [sum_links fold_right].
+  pose proof (sum_links_nonneg l Hl) as N. unfold sum_links in *.
+  destruct Hin as [->|Hin].
+  - lia.
+  - pose proof (link_size_pos x Hw Ht). specialize (IH e Hl Hin). lia.
+Qed.
+
+Lemma remove_child_est : forall M T name d old, wf_gtime T -> inv M T d ->
+  find_link name (links d) = Some old ->
+  est (fst (remove_child name d)) = est d - linkSerializedSize name (blen (e_cid old)) (e_tsize old).
+Proof.
+  intros M T name d old HT I Ef. unfold remove_child. rewrite Ef. cbn [fst est].
+  destruct (find_link_spec _ _ _ Ef) as [Hin Hname].
+  assert (Hls : linkSerializedSize name (blen (e_cid old)) (e_tsize old) = link_size old)
+    by (unfold link_size; rewrite Hname; reflexivity).
+  pose proof (link_size_le_sum _ _ (i_good _ _ _ I) Hin) as Hle.
+  pose proof (data_field_pos M T HT) as Dp.
+  unfold fix_negative. cbn [est]. rewrite Hls.
+  destruct (Z.ltb_spec (est d - link_size old) 0) as [Hneg|Hnn]; [|reflexivity].
+  rewrite (i_est _ _ _ I) in Hneg. lia.
+Qed.
+
+Lemma remove_child_est_absent : forall name d, find_link name (links d) = None ->
+  fst (remove_child name d) = d.
+Proof. intros name d Ef. unfold remove_child. rewrite Ef. reflexivity. Qed.
+
+(** needsToSwitchByBlockSize computes exactly the estimate the directory has after the edit *)
+Lemma decision_is_next_estimate : forall M T e d, wf_gtime T -> good_entry e -> inv M T d ->
+  decision_size e d = est (fst (add_child e d)).
+Proof.
+  intros M T e d HT He I. unfold decision_size.
+  destruct (remove_inv M T (e_name e) d HT I) as [I1 _].
+  pose proof (est_nonneg M T _ HT I1) as E1.
+  destruct He as [Hw Hts]. pose proof (link_size_pos e Hw Hts) as Lp. unfold tsize_ok in Hts.
+  assert (A : est (fst (add_child e d)) = est (fst (remove_child (e_name e) d)) + link_size e).
+  { unfold add_child. destruct (Z.leb_spec two63 (e_tsize e)); [lia|]. cbn [fst est].
+    unfold fix_negative. cbn [est].
+    destruct (Z.ltb_spec (est (fst (remove_child (e_name e) d)) + link_size e) 0); [lia|reflexivity]. }
+  rewrite A. destruct (find_link (e_name e) (links d)) as [old|] eqn:Ef.
+  - rewrite (remove_child_est M T _ d old HT I Ef). lia.
+  - rewrite (remove_child_est_absent _ d Ef). lia.
+Qed.
+
+(** ... which is the exact length of the block after the edit *)
+Theorem decision_exact : forall M T e d, wf_gtime T -> good_entry e -> inv M T d ->
+  decision_size e d = blen (node_bytes (fst (add_child e d))).
+Proof.
+  intros M T e d HT He I. rewrite (decision_is_next_estimate M T e d HT He I).
+  apply (inv_exact M T _ HT (add_inv M T e d HT He I)).
+Qed.
+
+Definition wf_dop (x : Z * op) : Prop :=
+  match snd x with OAdd e => good_entry e | _ => True end.
+
+Lemma dyn_sound_inv : forall M T ops d, wf_gtime T -> inv M T d -> Forall wf_dop ops ->
+  dyn_sound d ops = true.
+Proof.
+  induction ops as [|[thr o] ops IH]; intros d HT I W; cbn [dyn_sound]; [reflexivity|].
+  inversion W as [|? ? Wo Wops]; subst. unfold wf_dop in Wo. cbn [snd] in Wo.
+  destruct o as [e|name| ]; cbn [basic_edit dyn_decide decision_rule].
+  - destruct (add_child e d) as [d' ok] eqn:Ea.
+    pose proof (decision_exact M T e d HT Wo I) as DX. rewrite Ea in DX. cbn [fst] in DX.
+    unfold needs_switch. rewrite DX, eqb_reflx. cbn [andb].
+    destruct (effective_threshold thr <? blen (node_bytes d')); [reflexivity|].
+    apply IH; [exact HT| |exact Wops].
+    pose proof (add_inv M T e d HT Wo I) as A. rewrite Ea in A. exact A.
+  - destruct (remove_child name d) as [d' ok] eqn:Er. cbn [negb andb].
+    apply IH; [exact HT| |exact Wops].
+    pose proof (proj1 (remove_inv M T name d HT I)) as R. rewrite Er in R. exact R.
+  - cbn [negb andb]. apply IH; assumption.
+Qed.
+
+(** Every dynamic history, every threshold sequence: the directory converts to a
+    HAMT at an AddChild exactly when the block the basic directory would
+    serialise after that edit is longer than the threshold in force. *)
+Theorem decision_sound : forall mode t ops,
+  wf_gtime t -> Forall wf_dop ops -> dyn_sound (new_dir mode t) ops = true.
+Proof.
+  intros mode t ops Ht W.
+  apply (dyn_sound_inv _ _ ops _ (wf_norm_time t Ht) (new_dir_inv mode t Ht) W).
+Qed.
